@@ -312,6 +312,12 @@ func NewFuture[T any]() *Future[T] {
 //
 // Panics if f has already been filled.
 func (f *Future[T]) Fill(x T) {
+	select {
+	case <-f.c:
+		// Before touching f.x: the value that Wait already hands out must not change.
+		panic("xsync: Fill of an already filled Future")
+	default:
+	}
 	f.x = x
 	close(f.c)
 }
